@@ -45,7 +45,8 @@ func NewBasicBatchedIssuer(issuersArgs ...Issuer) *BasicBatchedIssuer {
 }
 
 func (i BasicBatchedIssuer) EvaluateBatch(req *BatchedTokenRequest) ([]byte, error) {
-	RESPONSE_ERROR := []byte{0}
+	// An empty slot is encoded as an absent entry below
+	var RESPONSE_ERROR []byte
 
 	responses := make([][]byte, len(req.token_requests))
 	for iReq, req := range req.token_requests {
